@@ -20,11 +20,62 @@ class Module:
             raise AnalysisError('cannot parse %s: %s' % (rel, e))
         self.classes = {}
         self.functions = {}
+        self.raw_classes = {}
+        self.raw_functions = {}
         for st in self.tree.body:
             if isinstance(st, ast.ClassDef):
-                self.classes[st.name] = {m.name: m for m in st.body if isinstance(m, ast.FunctionDef)}
+                self.raw_classes[st.name] = {m.name: m for m in st.body if isinstance(m, ast.FunctionDef)}
             elif isinstance(st, ast.FunctionDef):
-                self.functions[st.name] = st
+                self.raw_functions[st.name] = st
+        # helpers that did not exist when the rules were confirmed (vcheck/inventory.json) are inlined into their callers
+        from . import inline
+        try:
+            self.functions, self.classes, self.inlined = inline.expand_module(self.tree, rel)
+        except Exception as e:      # the inliner must never decide a verdict: fall back to the functions as written
+            self.functions, self.classes, self.inlined = dict(self.raw_functions), {k: dict(v) for k, v in self.raw_classes.items()}, []
+            self.inline_error = '%s: %s' % (type(e).__name__, e)
+        # translation validation (vcheck/equiv.py): a function that differs from the version the rules were confirmed on
+        # but is PROVED equivalent to it is analysed through that confirmed version
+        self.substituted = {}
+        self.unproved = {}
+        if os.environ.get('VERIF_NO_EQUIV') != '1':
+            try:
+                self._validate_against_reference()
+            except Exception as e:
+                self.equiv_error = '%s: %s' % (type(e).__name__, e)
+
+    def _validate_against_reference(self):
+        from . import inline, equiv
+        refp = os.path.join(os.path.dirname(os.path.abspath(__file__)), 'reference', self.rel + '.ref')
+        if not os.path.exists(refp):
+            return
+        ref_src = open(refp, encoding='utf-8', errors='replace').read()
+        if ref_src == self.src:
+            return
+        ref_tree = ast.parse(ref_src)
+        ref_funcs = {st.name: st for st in ref_tree.body if isinstance(st, ast.FunctionDef)}
+        ref_classes = {st.name: {m.name: m for m in st.body if isinstance(m, ast.FunctionDef)} for st in ref_tree.body if isinstance(st, ast.ClassDef)}
+        cur_exp = inline.Expander(self.tree, self.rel)
+        ref_exp = inline.Expander(ref_tree, self.rel)
+        extra = equiv_global_sigs()
+        todo = [(None, n, f, ref_funcs.get(n)) for n, f in self.raw_functions.items()]
+        for c, ms in self.raw_classes.items():
+            todo += [(c, n, f, ref_classes.get(c, {}).get(n)) for n, f in ms.items()]
+        for cls, name, cur, ref in todo:
+            if ref is None or ast.dump(cur) == ast.dump(ref):
+                continue
+            q = (cls + '.' if cls else '') + name
+            cur_sig = equiv.build_sigdb(self.raw_functions, self.raw_classes, cls, extra)
+            ref_sig = equiv.build_sigdb(ref_funcs, ref_classes, cls, extra)
+            ok, ta, tb = equiv.equivalent(cur, ref, cur_exp, ref_exp, cls, cur_sig, ref_sig)
+            if ok:
+                self.substituted[q] = ref
+                if cls:
+                    self.classes[cls][name] = ref
+                else:
+                    self.functions[name] = ref
+            else:
+                self.unproved[q] = (ta, tb)
 
     def method(self, cls, name):
         m = self.classes.get(cls, {}).get(name)
@@ -40,6 +91,37 @@ class Module:
 
 
 _mods = {}
+_gsigs = None
+
+
+def equiv_global_sigs():
+    """('any', name) -> parameter names, for method / function names whose parameter list is the same in every reference file that
+    defines them (used for keyword normal form of calls through other objects, e.g. p.calc_k0(...))"""
+    global _gsigs
+    if _gsigs is not None:
+        return _gsigs
+    base = os.path.join(os.path.dirname(os.path.abspath(__file__)), 'reference')
+    seen = {}
+    for root, _, files in os.walk(base):
+        for f in files:
+            if not f.endswith('.ref'):
+                continue
+            try:
+                t = ast.parse(open(os.path.join(root, f), encoding='utf-8', errors='replace').read())
+            except SyntaxError:
+                continue
+            for st in t.body:
+                fs = [(st, False)] if isinstance(st, ast.FunctionDef) else [(m, True) for m in st.body if isinstance(m, ast.FunctionDef)] if isinstance(st, ast.ClassDef) else []
+                for fn, meth in fs:
+                    if fn.args.vararg or fn.args.kwarg:
+                        seen.setdefault(fn.name, set()).add(None)
+                        continue
+                    ps = [a.arg for a in fn.args.posonlyargs + fn.args.args]
+                    if meth and ps and ps[0] in ('self', 'cls'):
+                        ps = ps[1:]
+                    seen.setdefault(fn.name, set()).add(tuple(ps))
+    _gsigs = {('any', k): list(next(iter(v))) for k, v in seen.items() if len(v) == 1 and None not in v}
+    return _gsigs
 
 
 def module(rel):
